@@ -53,7 +53,9 @@ Print Assumptions C18_failure_location.
 
 (* the registers/flags offered to assertions and the ram()/ram16() callbacks, as translated from the code, are the
    documented ones: cpu.a/x/y/sp, cpu.flags.<f> = the flag's status-register bit (carry 1 ... negative 128) when
-   set and 0 when clear; ram16 is little endian *)
+   set and 0 when clear; ram(a) has a value for every address $0000..$FFFF (a taken mod 65536), ram16(a) is the
+   little-endian word for every a up to $FFFE and has no value at $FFFF (bounds translated from RamFn::apply,
+   TestRunnerMemoryAccessor::read and BasicRam::new) *)
 Theorem C18_cpu_symbols_documented : forall c, cpu_entries c = doc_cpu_entries c.
 Proof. exact cpu_entries_doc. Qed.
 Print Assumptions C18_cpu_symbols_documented.
